@@ -42,7 +42,7 @@ func run(c *vrt.Ctx) {
 	case "bounds":
 		secs = []section{{"regress", runRegress}, {"mat", runMat}, {"hostile", runHostile}}
 	case "race":
-		secs = []section{{"regress", runRegress}, {"hostile", runHostile}, {"rdfc14n", runC14n}, {"dot", runDot}, {"hll", runHLL}}
+		secs = []section{{"regress", runRegress}, {"hostile", runHostile}, {"rdfc14n", runC14n}, {"reuse", runReuse}, {"dot", runDot}, {"hll", runHLL}}
 	default:
 		secs = []section{
 			{"regress", runRegress},
@@ -55,6 +55,7 @@ func run(c *vrt.Ctx) {
 			{"nquads", runNQuads},
 			{"dot", runDot},
 			{"rdfc14n", runC14n},
+			{"reuse", runReuse},
 			{"hostile", runHostile},
 			{"lean", runLean}, // last: see leanGuard
 		}
